@@ -117,7 +117,10 @@ ReadChecks(e, f) ==
       BS == BufItems(f.set, cs.small)
   IN B("C14_RoundTrip_readerr", e.err = "" /\ e.lerr = "")
      \cup B("C14_RoundTrip_sorted", StrictlySorted(R))
-     \cup B("C14_RoundTrip_items", Len(R) = Cardinality(BS) /\ \A i \in 1..Len(R) : R[i] \in BS)
+     \* (a LARGE case with a key Set twice is a generator error: reported as drift by TrDump, not judged here)
+     \cup (IF cs.small \/ DistinctKeys(f.set)
+            THEN B("C14_RoundTrip_items", Len(R) = Cardinality(BS) /\ \A i \in 1..Len(R) : R[i] \in BS)
+            ELSE {})
      \cup B("C14_RoundTrip_datasize", e.ds = MaxEnd(f.set) /\ e.lds = e.ds /\ f.mds = e.ds)
      \cup (IF cs.small THEN B("C14_RoundTrip_spec", R = DumpSpec([items |-> BS, maxoff |-> MaxEnd(f.set)]).items) ELSE {})
 
